@@ -119,8 +119,33 @@ fn run_case(gc: usize, init: bool, text: &[u16]) -> (String, String, String, usi
             Ok(v) => format!("V:{}", type_and_text(&v, &mut ctx)),
             Err(e) => error_class(&e, &mut ctx),
         };
-        if let Err(e) = ctx.run_jobs() {
-            comp.push_str(&format!(" jobs:{}", error_class(&e, &mut ctx)));
+        // Drain the job queue.  A cleanup callback of a FinalizationRegistry may throw (the generator marks such
+        // errors with the message prefix "FRCB"): whether it runs at all depends on the collection schedule, so
+        // it is a weak observation (line `F!:<message>`), and the queue is drained again afterwards (with a
+        // collection in between when collections are allowed, so that a second clean-up pass can happen).
+        for round in 0..12 {
+            match ctx.run_jobs() {
+                Ok(()) => {
+                    if round >= 2 || !src.contains("FRCB") {
+                        break;
+                    }
+                    if !NOGC.with(std::cell::Cell::get) {
+                        boa_gc::force_collect();
+                    }
+                }
+                Err(e) => {
+                    let msg = e.try_native(&mut ctx).map(|n| n.message().to_string()).unwrap_or_default();
+                    if msg.starts_with("FRCB") {
+                        bh::TRACE.with(|t| t.borrow_mut().push(bh::json_str(&format!("F!:{msg}"))));
+                        if !NOGC.with(std::cell::Cell::get) {
+                            boa_gc::force_collect();
+                        }
+                    } else {
+                        comp.push_str(&format!(" jobs:{}", error_class(&e, &mut ctx)));
+                        break;
+                    }
+                }
+            }
         }
         #[cfg(boa_verif)]
         boa_gc::verif::set_stress(0);
